@@ -1,0 +1,90 @@
+//go:build verif
+
+// Contracts for package transaction, read by /verif/kvc (contract-based deductive verification).
+// This file is comment-only and excluded from every build without the `verif` tag.
+package transaction
+
+// Ghost history of the storage backend: number of ApplyBatch calls (the only mutator a transaction may reach)
+// and number of read accesses.
+//@ ghost field (StorageBackend) batches int
+//@ ghost field (StorageBackend) reads int
+//@ func StorageBackend.ApplyBatch
+//@   havocs self.batches
+//@   ensures self.batches == old(self.batches) + 1
+//@ func StorageBackend.Get
+//@   havocs self.reads
+//@   ensures self.reads == old(self.reads) + 1
+//@ func StorageBackend.GetIterator
+//@   havocs self.reads
+//@   ensures self.reads == old(self.reads) + 1
+//@ func StorageBackend.GetRangeIterator
+//@   havocs self.reads
+//@   ensures self.reads == old(self.reads) + 1
+
+// Representation invariant of a transaction: the flags say which side of the isolation lock the transaction
+// owns, and an active transaction owns the side that matches its mode.  lockstate: 0 free, 1 shared, 2 exclusive
+// (state of the lock as owned by this transaction).
+//@ predicate TxInv(tx *TransactionImpl) = tx.rwLock != nil && tx.buffer != nil && !(tx.hasReadLock && tx.hasWriteLock) && (tx.active ==> (tx.mode == ReadOnly ==> tx.hasReadLock) && (tx.mode != ReadOnly ==> tx.hasWriteLock)) && (tx.hasReadLock ==> lockstate(tx.rwLock) == 1 && tx.mode == ReadOnly) && (tx.hasWriteLock ==> lockstate(tx.rwLock) == 2 && tx.mode != ReadOnly) && (!tx.hasReadLock && !tx.hasWriteLock ==> lockstate(tx.rwLock) == 0)
+
+//@ predicate TxBegun(tx *TransactionImpl, m *Manager, ro bool) = tx != nil && TxInv(tx) && tx.active && tx.storage == m.storage && (ro ==> tx.mode == ReadOnly && lockstate(m.txLock) == 1) && (!ro ==> tx.mode == ReadWrite && lockstate(m.txLock) == 2) && len(tx.buffer.operations) == 0
+
+// Begin acquires the isolation lock in the mode of the transaction (exactly one acquisition).
+//@ func (*Manager).BeginTransaction
+//@   requires lockstate(m.txLock) == 0
+//@   acquires m.txLock
+//@   ensures[C04,C17] err == nil && typeIs(result0, "*TransactionImpl") && fresh(dyn(result0))
+//@   ensures[C04,C17] TxBegun(dyn(result0, "*TransactionImpl"), m, readOnly)
+
+// Commit/Rollback take effect at most once, release exactly the side that is owned, after the last storage access.
+//@ func (*TransactionImpl).Commit
+//@   requires TxInv(tx) && lockstate(tx.mu) == 0
+//@   releases tx.rwLock
+//@   ensures[C17,C04] TxInv(tx) && !tx.active
+//@   ensures[C17] old(tx.active) ==> !tx.hasReadLock && !tx.hasWriteLock && lockstate(tx.rwLock) == 0
+//@   ensures[C17] !old(tx.active) ==> err == ErrTransactionClosed && lockstate(tx.rwLock) == old(lockstate(tx.rwLock)) && tx.storage.batches == old(tx.storage.batches) && tx.hasReadLock == old(tx.hasReadLock) && tx.hasWriteLock == old(tx.hasWriteLock)
+//@   ensures[C03] tx.storage.batches <= old(tx.storage.batches) + 1
+//@   ensures[C03] old(tx.active) && tx.mode != ReadOnly && old(len(tx.buffer.operations)) > 0 ==> tx.storage.batches == old(tx.storage.batches) + 1
+//@   ensures[C03] old(tx.active) && tx.mode != ReadOnly && old(len(tx.buffer.operations)) == 0 ==> tx.storage.batches == old(tx.storage.batches)
+//@   ensures[C03,C04] tx.mode == ReadOnly ==> tx.storage.batches == old(tx.storage.batches)
+//@   check[C04,C03] before call StorageBackend.ApplyBatch#1: lockstate(tx.rwLock) == 2 && tx.hasWriteLock
+//@ func (*TransactionImpl).Rollback
+//@   requires TxInv(tx) && lockstate(tx.mu) == 0
+//@   releases tx.rwLock
+//@   ensures[C17,C04] TxInv(tx) && !tx.active
+//@   ensures[C17] old(tx.active) ==> !tx.hasReadLock && !tx.hasWriteLock && lockstate(tx.rwLock) == 0 && err == nil
+//@   ensures[C17] !old(tx.active) ==> err == ErrTransactionClosed && lockstate(tx.rwLock) == old(lockstate(tx.rwLock)) && tx.hasReadLock == old(tx.hasReadLock) && tx.hasWriteLock == old(tx.hasWriteLock)
+//@   ensures[C03,C17] tx.storage.batches == old(tx.storage.batches)
+//@   ensures[C03] old(tx.active) ==> len(tx.buffer.operations) == 0
+
+// The release helpers: the compare-and-swap on the flag is the decisive step (release exactly once).
+//@ func (*TransactionImpl).releaseReadLock
+//@   requires tx.rwLock != nil && (tx.hasReadLock ==> lockstate(tx.rwLock) == 1)
+//@   releases tx.rwLock
+//@   modifies tx.hasReadLock
+//@   ensures[C17] !tx.hasReadLock && (old(tx.hasReadLock) ==> lockstate(tx.rwLock) == 0) && (!old(tx.hasReadLock) ==> lockstate(tx.rwLock) == old(lockstate(tx.rwLock)))
+//@ func (*TransactionImpl).releaseWriteLock
+//@   requires tx.rwLock != nil && (tx.hasWriteLock ==> lockstate(tx.rwLock) == 2)
+//@   releases tx.rwLock
+//@   modifies tx.hasWriteLock
+//@   ensures[C17] !tx.hasWriteLock && (old(tx.hasWriteLock) ==> lockstate(tx.rwLock) == 0) && (!old(tx.hasWriteLock) ==> lockstate(tx.rwLock) == old(lockstate(tx.rwLock)))
+
+// Operations before commit: nothing reaches storage; a closed transaction fails without side effect;
+// every storage access happens while the lock is owned.
+//@ func (*TransactionImpl).Put
+//@   requires TxInv(tx) && lockstate(tx.mu) == 0
+//@   ensures[C04,C17] TxInv(tx) && tx.active == old(tx.active)
+//@   ensures[C03,C17] tx.storage.batches == old(tx.storage.batches) && lockstate(tx.rwLock) == old(lockstate(tx.rwLock))
+//@   ensures[C17] !old(tx.active) ==> err == ErrTransactionClosed && len(tx.buffer.operations) == old(len(tx.buffer.operations))
+//@   ensures[C16,C04] old(tx.active) && tx.mode == ReadOnly ==> err == ErrReadOnlyTransaction && len(tx.buffer.operations) == old(len(tx.buffer.operations))
+//@ func (*TransactionImpl).Delete
+//@   requires TxInv(tx) && lockstate(tx.mu) == 0
+//@   ensures[C04,C17] TxInv(tx) && tx.active == old(tx.active)
+//@   ensures[C03,C17] tx.storage.batches == old(tx.storage.batches) && lockstate(tx.rwLock) == old(lockstate(tx.rwLock))
+//@   ensures[C17] !old(tx.active) ==> err == ErrTransactionClosed && len(tx.buffer.operations) == old(len(tx.buffer.operations))
+//@   ensures[C16,C04] old(tx.active) && tx.mode == ReadOnly ==> err == ErrReadOnlyTransaction && len(tx.buffer.operations) == old(len(tx.buffer.operations))
+//@ func (*TransactionImpl).Get
+//@   requires TxInv(tx) && lockstate(tx.mu) == 0
+//@   ensures[C04,C17] TxInv(tx) && tx.active == old(tx.active)
+//@   ensures[C03,C17] tx.storage.batches == old(tx.storage.batches) && lockstate(tx.rwLock) == old(lockstate(tx.rwLock))
+//@   ensures[C17] !old(tx.active) ==> err == ErrTransactionClosed && tx.storage.reads == old(tx.storage.reads)
+//@   check[C04] before call StorageBackend.Get#1: lockstate(tx.rwLock) >= 1 && tx.active
